@@ -25,7 +25,7 @@ from .cxx_ir import Node, Func, Record, Program, WRAPPERS, FUNC_KINDS, CTOR_KIND
 REPO = os.environ.get('OPTREE_REPO', '/repo')
 HERE = os.path.dirname(os.path.abspath(__file__))
 VERIF = os.path.dirname(HERE)
-CACHE = os.path.join(VERIF, '.cache')
+CACHE = os.environ.get('OPTREE_VERIF_CACHE') or os.path.join(VERIF, '.cache')
 CLANG = 'clang++-14'
 PYBIND_INC = '/venv/lib/python3.12/site-packages/torch/include'
 IR_VERSION = '9'
@@ -78,9 +78,10 @@ def cxx_standard():
 
 def flags(config):
     inc, extra = CONFIGS[config]
-    prefix = len(REPO.rstrip('/') + '/')
+    # SOURCE_PATH_PREFIX_SIZE only shortens __FILE__ in error messages; a constant keeps the IR
+    # (and its cache key) independent of where the analysed tree lives
     return ['-std=c++' + cxx_standard(), '-fsyntax-only', '-Iinclude', '-I' + PYBIND_INC,
-            '-I' + inc, '-DSOURCE_PATH_PREFIX_SIZE=%d' % prefix, '-w'] + extra
+            '-I' + inc, '-DSOURCE_PATH_PREFIX_SIZE=0', '-w'] + extra
 
 
 def consulted_files():
@@ -646,7 +647,7 @@ def load_program(config=SHIPPED, jobs=None, verbose=False):
     os.makedirs(CACHE, exist_ok=True)
     key = digest(config)
     path = os.path.join(CACHE, 'cxx-%s-%s.pickle' % (config, key))
-    lock = os.path.join(CACHE, 'cxx-%s.lock' % config)
+    lock = os.path.join(CACHE, 'cxx-%s-%s.lock' % (config, key))
     with open(lock, 'w') as lf:
         fcntl.flock(lf, fcntl.LOCK_EX)
         try:
@@ -669,10 +670,14 @@ def load_program(config=SHIPPED, jobs=None, verbose=False):
                 pickle.dump(prog, fh, protocol=pickle.HIGHEST_PROTOCOL)
             os.replace(tmp, path)
             # prune old cache entries of this configuration
-            for old in glob.glob(os.path.join(CACHE, 'cxx-%s-*.pickle' % config)):
+            olds = sorted(glob.glob(os.path.join(CACHE, 'cxx-%s-*.pickle' % config)),
+                          key=lambda q: os.path.getmtime(q) if os.path.exists(q) else 0)
+            keep = int(os.environ.get('OPTREE_VERIF_CACHE_KEEP', '4'))
+            for old in olds[:-keep]:
                 if old != path:
                     try:
                         os.remove(old)
+                        os.remove(old.replace('.pickle', '.lock'))
                     except OSError:
                         pass
             return prog
